@@ -353,7 +353,8 @@ Proof. exact mk_pins_nodup. Qed.
     producing the raw tree, None = lark raises; [VT.module_args] = the child callbacks name / range / sigsel / concat / declaration /
     namedpin / instantiation, i.e. what VerilogTransformer.module receives; [VT.circuits_of_text] = verilog.parse up to the circuits).
     A rendering [VT.render l rest] writes the tokens [map snd l] each PRECEDED by ignored text ([VT.sep]: blanks, tabs, form feeds, "\n",
-    "\r\n", block comments, attributes, "//" comments with their newline); [VT.glue_ok]: the ignored text is well formed and what
+    "\r\n", block comments, attributes, "//" comments with their newline; at the very end of the text [VT.end_text sf tl] a last "//"
+    comment [tl] without newline may follow); [VT.glue_ok]: the ignored text is well formed and what
     follows a token does not prolong it; [VT.toks_ok m ts]: each token is one the scanner of its parser state returns. *)
 From KV Require Proofs.VerilogTextProofs.
 Module VT := KV.Model.VerilogText.
@@ -376,7 +377,7 @@ Proof. exact VTP.ignored_irrelevant. Qed.
 Theorem C11_vtext_token_language : forall ts l, VT.parse_toks ts = Some l <-> ts = VT.toks_tree l /\ VT.shape_tree l = true.
 Proof. exact VTP.parse_toks_iff. Qed.
 (* converse: the lexer accepts EXACTLY the renderings ([VT.rendering s ts]: s = ignored text of the eight forms of [VT.ign] in front of
-   every token of ts and at the end, every token one the scanner of its parser state returns, nothing after a token that prolongs it),
+   every token of ts and at the end, there possibly followed by a last "//" comment without line break, every token one the scanner of its parser state returns, nothing after a token that prolongs it),
    so the language of verilog.GRAMMAR under lark is exactly: renderings of token streams of trees *)
 Theorem C11_vtext_lex_iff : forall s ts, VT.lex s = Some ts <-> VT.rendering s ts.
 Proof. exact VTP.lex_iff. Qed.
@@ -392,21 +393,29 @@ Theorem C11_vtext_any_rendering : forall t l sf, VT.wf_tree t = true -> map snd 
 Proof. exact VTP.parse_any_rendering. Qed.
 Theorem C11_vtext_parse_print : forall t, VT.wf_tree t = true -> VT.parse_verilog (VT.print_tree t) = Some t.
 Proof. exact VTP.parse_print. Qed.
-(* rejected: ignored text that does not end (open block comment / attribute, "//" comment without a newline before the end of the
-   text) after ANY token list *)
+(* since the repair of verilog.GRAMMAR ("//" /[^\n]*/ instead of "//" /(.)*/ NEWLINE): a text may END in a line comment without line
+   break -- every such way of writing a token stream is lexed to it, every such way of writing a well-formed tree is read back *)
+Theorem C11_vtext_lex_render_tail : forall l sf tl, VT.toks_ok VT.LTop (map snd l) = true -> VT.glue_ok l (VT.end_text sf tl) = true ->
+  VT.sep_ok sf = true -> VT.tail_ok tl = true -> VT.lex (VT.render l (VT.end_text sf tl)) = Some (map snd l).
+Proof. exact VTP.lex_render_tail. Qed.
+Theorem C11_vtext_eof_line_comment_accepted : forall t l sf b, VT.wf_tree t = true -> map snd l = VT.toks_tree t ->
+  VT.glue_ok l (VT.sep_text sf ++ "//" ++ b)%string = true -> VT.sep_ok sf = true -> VT.no_newline b = true ->
+  VT.parse_verilog (VT.render l (VT.sep_text sf ++ "//" ++ b)%string) = Some t.
+Proof. exact VTP.eof_line_comment_accepted. Qed.
+(* rejected: ignored text that does not end (open block comment / attribute) after ANY token list *)
 Theorem C11_vtext_open_ignored_rejected : forall l rest, VT.toks_ok VT.LTop (map snd l) = true -> VT.glue_ok l rest = true ->
   VT.skip_ign rest = None -> VT.parse_verilog (VT.render l rest) = None.
 Proof. exact VTP.open_ignored_rejected. Qed.
-Theorem C11_vtext_eof_line_comment_rejected : forall l sf b, VT.toks_ok VT.LTop (map snd l) = true ->
-  VT.glue_ok l (VT.sep_text sf ++ "//" ++ b)%string = true -> VT.sep_ok sf = true -> VT.no_newline b = true ->
-  VT.parse_verilog (VT.render l (VT.sep_text sf ++ "//" ++ b)%string) = None.
-Proof. exact VTP.eof_line_comment_rejected. Qed.
-(* FINDING: a netlist that ends in a line comment without line break is rejected; with the line break, or with a
-   block comment, it is read *)
+(* a netlist that ends in a line comment without line break is read (it was rejected before the repair: finding of round 3), also when
+   that comment ends in a carriage return or is empty; an open block comment is rejected *)
 Theorem C11_vtext_eof_comment_witness :
-  VT.parse_verilog "module m (); endmodule // end"%string = None /\
-  VT.parse_verilog ("module m (); endmodule // end" ++ VT.nl1)%string = Some [VT.mkT "m" [] []]%string /\
-  VT.parse_verilog "module m (); endmodule /* end */"%string = Some [VT.mkT "m" [] []]%string.
+  (VT.parse_verilog "module m (); endmodule // end" = Some [VT.mkT "m" [] []] /\
+  VT.parse_verilog ("module m (); endmodule // end" ++ VT.nl1) = Some [VT.mkT "m" [] []] /\
+  VT.parse_verilog ("module m (); endmodule // end" ++ VT.chr VT.c_cr) = Some [VT.mkT "m" [] []] /\
+  VT.parse_verilog "module m (); endmodule //" = Some [VT.mkT "m" [] []] /\
+  VT.parse_verilog "//" = Some [] /\
+  VT.parse_verilog "module m (); endmodule /* end */" = Some [VT.mkT "m" [] []] /\
+  VT.parse_verilog "module m (); endmodule /* end" = None)%string.
 Proof. exact VTP.eof_comment_witness. Qed.
 (* lexer probes: keywords are keywords only at the beginning of a statement (`module` there is a name); `module` is a plain prefix at
    top level; upper-case keywords are names; a sized constant takes every hexadecimal digit; an escaped name keeps its terminator;
